@@ -58,29 +58,20 @@ def sp_matmul(ndarray, affine, shape):
     if len(shape) < 1:
         return csr_matrix(ndarray)
     else:
+        affine_index = np.arange(affine.size).reshape(affine.shape)
         if len(affine.shape) == 1:
-            affine = affine.reshape((affine.size, 1))
-            row, col = shape[-1], 1
-        elif len(ndarray.shape) == 1:
+            affine_index = affine_index.reshape((affine.size, 1))
+        if len(ndarray.shape) == 1:
             ndarray = ndarray.reshape((1, ndarray.size))
-            row, col = 1, shape[-1]
-        else:
-            row, col = shape[-2], shape[-1]
 
         inner = ndarray.shape[-1]
+        row, col = ndarray.shape[-2], affine_index.shape[-1]
+        batch = np.broadcast_shapes(ndarray.shape[:-2], affine_index.shape[:-2])
 
-        affine_index = np.arange(affine.size).reshape(affine.shape)
-        dim = len(affine.shape)
-        axes = list(range(dim-2)) + [dim-1, dim-2]
-        index = np.transpose(np.tile(affine_index, row), axes=axes).flatten()
-        index_rep = size // (len(index)//inner)
-        if index_rep > 1:
-            index = np.tile(index, index_rep)
-
-        data = np.tile(ndarray, col).flatten()
-        data_rep = size // (len(data)//inner)
-        if data_rep > 1:
-            data = np.tile(data, data_rep)
+        data = np.broadcast_to(ndarray[..., :, None, :],
+                               batch + (row, col, inner)).flatten()
+        index = np.swapaxes(affine_index, -1, -2)[..., None, :, :]
+        index = np.broadcast_to(index, batch + (row, col, inner)).flatten()
 
         indptr = [inner*i for i in range(size+1)]
 
@@ -94,29 +85,20 @@ def sp_lmatmul(ndarray, affine, shape):
     if len(shape) <= 0:
         return csr_matrix(ndarray)
     else:
-        if len(affine.shape) == 1:
-            affine = affine.reshape((1, affine.size))
-            row, col = 1, shape[-1]
-        elif len(ndarray.shape) == 1:
-            ndarray = ndarray.reshape((ndarray.size, 1))
-            row, col = shape[-1], 1
-        else:
-            row, col = shape[-2], shape[-1]
-
-        inner = affine.shape[-1]
-
         affine_index = np.arange(affine.size).reshape(affine.shape)
-        index = np.tile(affine_index, col).flatten()
-        index_rep = size // (len(index)//inner)
-        if index_rep > 1:
-            index = np.tile(index, index_rep)
+        if len(affine.shape) == 1:
+            affine_index = affine_index.reshape((1, affine.size))
+        if len(ndarray.shape) == 1:
+            ndarray = ndarray.reshape((ndarray.size, 1))
 
-        dim = len(ndarray.shape)
-        axes = list(range(dim-2)) + [dim-1, dim-2]
-        data = np.transpose(np.tile(ndarray, row), axes=axes).flatten()
-        data_rep = size // (len(data)//inner)
-        if data_rep > 1:
-            data = np.tile(data, data_rep)
+        inner = affine_index.shape[-1]
+        row, col = affine_index.shape[-2], ndarray.shape[-1]
+        batch = np.broadcast_shapes(affine_index.shape[:-2], ndarray.shape[:-2])
+
+        index = np.broadcast_to(affine_index[..., :, None, :],
+                                batch + (row, col, inner)).flatten()
+        data = np.swapaxes(ndarray, -1, -2)[..., None, :, :]
+        data = np.broadcast_to(data, batch + (row, col, inner)).flatten()
 
         indptr = [inner*i for i in range(size+1)]
 
